@@ -31,6 +31,10 @@ def apply(ctx, W):
     rules.plumbing_once(fw)
     stm = "definition.statements@"
     fn, u = fn_into_verus(ctx, fw, "build", ret="res", tags=U, requires=["reg_wf(&semantic.type_registry)"], ensures=[
+        # C10: an enum is deferred only while its base type does not resolve or has no size yet
+        ("""res is Ok && res->Ok_0 is None ==> module_of(semantic, *resolvee_path) is Some && ({
+            let t = spec_resolve_type(&semantic.type_registry, module_scope(&module_of(semantic, *resolvee_path)->0), definition.type_);
+            t is None || ty_size(t->0, &semantic.type_registry) is None })""", ("C10",), "enum-defers-only-while-base-unresolved"),
         ("""res is Ok && res->Ok_0 is Some ==> ({
             let isr = res->Ok_0->0;
             let reg = &semantic.type_registry;
